@@ -28,7 +28,7 @@ json gen_family_text(Rng &r, int tier)
 	tg.max_items = tier ? 8 : 6;
 	tg.ctx_flags = flags;
 	tg.comments = 1;
-	tg.include_targets = {"/inc/a.conf", "/inc/a.conf", "/inc", "/inc/nope.conf", "/inc/self.conf"}; // also a directory, a missing file and a file that includes itself (refused at the depth limit)
+	tg.include_targets = {"/inc/a.conf", "/inc/a.conf", "/inc", "/inc/nope.conf", "/inc/self.conf", "~nouser/a.conf", "~/a.conf", "~inc/a.conf"}; // also a directory, a missing file and a file that includes itself (refused at the depth limit)
 	std::vector<Chunk> main_chunks = gen_text(r, schema["opts"], tg);
 	TextGen tg2 = tg;
 	tg2.include_targets = {"/inc/b.conf"};
@@ -39,7 +39,8 @@ json gen_family_text(Rng &r, int tier)
 	fs.push_back(fs_file("/inc/b.conf", "# leaf\n"));
 	fs.push_back(fs_file("/inc/self.conf", "# again\ninclude(\"/inc/self.conf\")\n"));
 	fs.push_back({{"path", "/inc"}, {"kind", "dir"}});
-	plan["world"] = {{"fs", fs}, {"env", {{"X", "1"}}}};
+	// the account database knows "inc" (home /inc) and uid 0, but no "nouser"
+	plan["world"] = {{"fs", fs}, {"env", {{"X", "1"}}}, {"passwd", json::array({{{"name", "inc"}, {"uid", 1000}, {"dir", "/inc"}}, {{"name", "root"}, {"uid", 0}, {"dir", "/inc"}}})}, {"euid", r.chance(1, 2) ? 0 : 4242}};
 	plan["knobs"] = {{"fill", r.chance(1, 2) ? 0xA5 : 0x00}, {"tty", r.chance(1, 6)}, {"recycle", r.chance(1, 2)}};
 	json steps = json::array();
 	json init = step(0, "init", 0);
